@@ -14,9 +14,9 @@
 using namespace glmx;
 
 template <typename F> struct FT;
-template <> struct FT<float> { typedef double W; static float get(uint64_t b) { return f32(b); } static uint64_t bits(float f) { return b32(f); } static bool nan(float f) { return f != f; }
+template <> struct FT<float> { typedef double W; static float get(uint64_t b) { return f32(b); } static uint64_t bits(float f) { return f != f ? 0x7fc00000u : b32(f); }   /* all NaNs identified (payload/sign are not observable) */ static uint64_t vbits(float f) { return f == 0 ? 0 : bits(f); } static bool nan(float f) { return f != f; }
   static constexpr double BIGINT = 8388608.0; static constexpr float MAXV = FLT_MAX; static constexpr int MANT = 24; };
-template <> struct FT<double> { typedef long double W; static double get(uint64_t b) { return f64(b); } static uint64_t bits(double f) { return b64(f); } static bool nan(double f) { return f != f; }
+template <> struct FT<double> { typedef long double W; static double get(uint64_t b) { return f64(b); } static uint64_t bits(double f) { return f != f ? 0x7ff8000000000000ull : b64(f); } static uint64_t vbits(double f) { return f == 0 ? 0 : bits(f); } static bool nan(double f) { return f != f; }
   static constexpr double BIGINT = 4503599627370496.0; static constexpr double MAXV = DBL_MAX; static constexpr int MANT = 53; };
 template <typename F> static inline bool valeq(F a, F b) { return a == b || (a != a && b != b); }
 template <typename F> static inline bool finite(F x) { return x - x == 0; }
@@ -107,8 +107,8 @@ template <typename F> static void op_binary(const Case& c, Outcome& o) {
   { F g = glm::max(x, y), w = (x < y) ? y : x; o.res(FT<F>::bits(g)); o.exp(FT<F>::bits(w)); if (!valeq(g, w)) { o.bad(2, "max(x,y): not 'y if x < y, otherwise x'"); return; } }
   { F g = glm::step(x, y), w = (y < x) ? (F)0 : (F)1; o.res(FT<F>::bits(g)); o.exp(FT<F>::bits(w)); if (!(g == w)) { o.bad(3, "step(edge,x): not '0 if x < edge, otherwise 1'"); return; } }
   // fmin/fmax: NaN only if every operand is NaN, otherwise the min/max of the non-NaN operands
-  { F g = glm::fmin(x, y); o.res(FT<F>::bits(g)); if (nx && ny) { if (g == g) { o.bad(4, "fmin(NaN,NaN) must be NaN"); return; } } else { F w = nx ? y : ny ? x : (y < x ? y : x); o.exp(FT<F>::bits(w)); if (!(g == w)) { o.bad(5, "fmin: not the minimum of the non-NaN operands"); return; } } }
-  { F g = glm::fmax(x, y); o.res(FT<F>::bits(g)); if (nx && ny) { if (g == g) { o.bad(6, "fmax(NaN,NaN) must be NaN"); return; } } else { F w = nx ? y : ny ? x : (x < y ? y : x); o.exp(FT<F>::bits(w)); if (!(g == w)) { o.bad(7, "fmax: not the maximum of the non-NaN operands"); return; } } }
+  { F g = glm::fmin(x, y); o.res(FT<F>::vbits(g)); if (nx && ny) { if (g == g) { o.bad(4, "fmin(NaN,NaN) must be NaN"); return; } } else { F w = nx ? y : ny ? x : (y < x ? y : x); o.exp(FT<F>::bits(w)); if (!(g == w)) { o.bad(5, "fmin: not the minimum of the non-NaN operands"); return; } } }
+  { F g = glm::fmax(x, y); o.res(FT<F>::vbits(g)); if (nx && ny) { if (g == g) { o.bad(6, "fmax(NaN,NaN) must be NaN"); return; } } else { F w = nx ? y : ny ? x : (x < y ? y : x); o.exp(FT<F>::bits(w)); if (!(g == w)) { o.bad(7, "fmax: not the maximum of the non-NaN operands"); return; } } }
   // mod(x,y) = x - y*floor(x/y) within rounding of the formula (finite operands, y != 0, quotient in range)
   if (finite(x) && finite(y) && y != 0) { typedef typename FT<F>::W W; W q = std::floor((W)((F)(x / y))); W ref = (W)x - (W)y * q; F g = glm::mod(x, y);
     W mag = std::fabs((W)x) + std::fabs((W)y * q); W u = std::ldexp((W)1, -FT<F>::MANT);
@@ -124,10 +124,10 @@ template <typename F> static void op_ternary(const Case& c, Outcome& o) {
   // clamp(x, lo, hi) = min(max(x, lo), hi) (GLSL definition; undefined if lo > hi -> skipped)
   if (!(y > z)) { F g = glm::clamp(x, y, z); F m = (x < y) ? y : x; F w = (z < m) ? z : m; o.res(FT<F>::bits(g)); o.exp(FT<F>::bits(w)); if (!valeq(g, w)) { o.bad(1, "clamp: not min(max(x,minVal),maxVal)"); return; } }
   // fclamp: NaN only if every operand is NaN
-  { F g = glm::fclamp(x, y, z); o.res(FT<F>::bits(g)); bool all = x != x && y != y && z != z; if (all ? (g == g) : (g != g)) { o.bad(2, "fclamp: NaN iff every operand is NaN"); return; }
+  { F g = glm::fclamp(x, y, z); o.res(FT<F>::vbits(g)); bool all = x != x && y != y && z != z; if (all ? (g == g) : (g != g)) { o.bad(2, "fclamp: NaN iff every operand is NaN"); return; }
     if (!anynan && !(y > z)) { F m = (x < y) ? y : x; F w = (z < m) ? z : m; o.exp(FT<F>::bits(w)); if (!(g == w)) { o.bad(3, "fclamp: not the clamped value"); return; } } }
   // 3-operand fmin/fmax and min/max
-  { int nn = (x != x) + (y != y) + (z != z); F g = glm::fmin(x, y, z), h = glm::fmax(x, y, z); o.res(FT<F>::bits(g), FT<F>::bits(h));
+  { int nn = (x != x) + (y != y) + (z != z); F g = glm::fmin(x, y, z), h = glm::fmax(x, y, z); o.res(FT<F>::vbits(g), FT<F>::vbits(h));
     if (nn == 3) { if (g == g || h == h) { o.bad(4, "fmin/fmax of three NaN must be NaN"); return; } }
     else { F lo = 0, hi = 0; bool first = true; const F v[3] = {x, y, z}; for (F t : v) if (t == t) { if (first) { lo = hi = t; first = false; } else { if (t < lo) lo = t; if (t > hi) hi = t; } }
       o.exp(FT<F>::bits(lo), FT<F>::bits(hi)); if (!(g == lo)) { o.bad(5, "fmin(a,b,c): not the minimum of the non-NaN operands"); return; } if (!(h == hi)) { o.bad(6, "fmax(a,b,c): not the maximum of the non-NaN operands"); return; } }
@@ -154,7 +154,7 @@ template <typename F> static void op_ternary(const Case& c, Outcome& o) {
 template <typename F> static void op_quaternary(const Case& c, Outcome& o) {
   for (int i = 0; i < 4; ++i) if (snan<F>(c.w[i])) { o.nontrivial = false; return; }
   F v[4] = {FT<F>::get(c.w[0]), FT<F>::get(c.w[1]), FT<F>::get(c.w[2]), FT<F>::get(c.w[3])}; int nn = 0; for (F t : v) nn += t != t; o.cls(nn ? 1 : 0);
-  F g = glm::fmin(v[0], v[1], v[2], v[3]), h = glm::fmax(v[0], v[1], v[2], v[3]); o.res(FT<F>::bits(g), FT<F>::bits(h));
+  F g = glm::fmin(v[0], v[1], v[2], v[3]), h = glm::fmax(v[0], v[1], v[2], v[3]); o.res(FT<F>::vbits(g), FT<F>::vbits(h));
   if (nn == 4) { if (g == g || h == h) o.bad(1, "fmin/fmax of four NaN must be NaN"); return; }
   F lo = 0, hi = 0; bool first = true; for (F t : v) if (t == t) { if (first) { lo = hi = t; first = false; } else { if (t < lo) lo = t; if (t > hi) hi = t; } }
   o.exp(FT<F>::bits(lo), FT<F>::bits(hi)); if (!(g == lo)) { o.bad(2, "fmin(a,b,c,d): not the minimum of the non-NaN operands"); return; } if (!(h == hi)) { o.bad(3, "fmax(a,b,c,d): not the maximum of the non-NaN operands"); return; }
